@@ -8,26 +8,26 @@ Import ListNotations.
    evicting releases, timers firing anywhere): for every value ever added, the eviction callback has run at
    most once, and it has run exactly when the value has left the cache AND no holder still holds it. *)
 Theorem C10_exactly_once :
-  forall (c : nat) (os : list op) (i : nat) (e : ent),
-    let s := exec (init c) os in
+  forall (c : Z) (os : list op) (i : nat) (e : ent),
+    let s := exec (initZ c) os in
     nth_error (ents s) i = Some e ->
     callbacks s i <= 1 /\ (callbacks s i = 1 <-> (~ in_cache s i /\ live s i = 0)).
-Proof. intros c os i e s H. exact (exactly_once_inv s i e (reach_inv c os) H). Qed.
+Proof. intros c os i e s H. exact (exactly_once_inv s i e (reach_invZ c os) H). Qed.
 Print Assumptions C10_exactly_once.
 
 (* A holder never sees its value finalised under it; a cached value is never finalised. *)
 Theorem C10_never_while_held :
-  forall c os i, let s := exec (init c) os in
+  forall (c : Z) os i, let s := exec (initZ c) os in
     (0 < live s i -> callbacks s i = 0) /\ (in_cache s i -> callbacks s i = 0).
-Proof. intros c os i s. split; [exact (held_not_finalized s i (reach_inv c os))|exact (cached_not_finalized s i (reach_inv c os))]. Qed.
+Proof. intros c os i s. split; [exact (held_not_finalized s i (reach_invZ c os))|exact (cached_not_finalized s i (reach_invZ c os))]. Qed.
 Print Assumptions C10_never_while_held.
 
 (* The OnEvicted calls reported op by op (what the implementation is compared on) are exactly the
    callback history the two theorems above speak about. *)
 Theorem C10_outputs_are_callbacks :
-  forall c os, fst (run (init c) os) = exec (init c) os
-            /\ log (exec (init c) os) = concat (map snd (snd (run (init c) os))).
-Proof. intros c os. split; [exact (run_exec os (init c))|exact (run_outputs os (init c))]. Qed.
+  forall (c : Z) os, fst (run (initZ c) os) = exec (initZ c) os
+            /\ log (exec (initZ c) os) = concat (map snd (snd (run (initZ c) os))).
+Proof. intros c os. split; [exact (run_exec os (initZ c))|exact (run_outputs os (initZ c))]. Qed.
 Print Assumptions C10_outputs_are_callbacks.
 
 (* Releasing twice is harmless: a second, non-evicting release of the same handle changes nothing
@@ -40,40 +40,42 @@ Print Assumptions C10_double_release_harmless.
 (* Adding an existing key returns the cached value (added = false), runs no callback, allocates nothing
    and leaves cache membership unchanged. *)
 Theorem C10_add_existing_returns_cached :
-  forall c os k i, let s := exec (init c) os in
+  forall (c : Z) os k i, let s := exec (initZ c) os in
     lru_find (lru s) k = Some i ->
     snd (step s (Add k)) = Some (i, false)
     /\ log (fst (step s (Add k))) = log s
     /\ length (ents (fst (step s (Add k)))) = length (ents s)
     /\ lru_find (lru (fst (step s (Add k)))) k = Some i
     /\ (forall k' j, In (k', j) (lru (fst (step s (Add k)))) <-> In (k', j) (lru s)).
-Proof. intros c os k i s H. exact (add_existing s k i (reach_inv c os) H). Qed.
+Proof. intros c os k i s H. exact (add_existing s k i (reach_invZ c os) H). Qed.
 Print Assumptions C10_add_existing_returns_cached.
 
 (* Re-adding a key while an older value of it is still held: the evicting release of the old value
    (which already left the cache) does not remove the new one. *)
 Theorem C10_readd_while_old_held :
-  forall c os h i r e, let s := exec (init c) os in
+  forall (c : Z) os h i r e, let s := exec (initZ c) os in
     nth_error (hs s) h = Some (i, r) -> nth_error (ents s) i = Some e -> e_fin e = true ->
     lru (fst (step s (Release h true))) = lru s.
-Proof. intros c os h i r e s. exact (release_old_keeps_cache s h i r e (reach_inv c os)). Qed.
+Proof. intros c os h i r e s. exact (release_old_keeps_cache s h i r e (reach_invZ c os)). Qed.
 Print Assumptions C10_readd_while_old_held.
 
-(* Capacity eviction: an LRU cache created with MaxEntries = c > 0 never holds more than c values, after any
-   history (so "capacity eviction" in C10_exactly_once is really exercised: the (c+1)-th distinct key evicts
-   the least recently used one); the capacity never changes. *)
+(* Capacity eviction: an LRU cache created with MaxEntries = c never holds more than c values when c > 0
+   (so "capacity eviction" in C10_exactly_once is really exercised: the (c+1)-th distinct key evicts the least
+   recently used one), and holds nothing at all when c < 0 (groupcache/lru then evicts on every Add — the value is
+   handed to its adder already out of the cache, still covered by C10_exactly_once); the capacity never changes. *)
 Theorem C10_capacity_bound :
-  forall c os, cap (exec (init c) os) = c /\ (c <> 0 -> length (lru (exec (init c) os)) <= c).
+  forall (c : Z) os, let s := exec (initZ c) os in
+    cap s = c /\ ((0 < c)%Z -> (Z.of_nat (length (lru s)) <= c)%Z) /\ ((c < 0)%Z -> lru s = []).
 Proof.
-  intros c os. destruct (reach_capinv c os) as [Hc Hi]. split; [exact Hc|].
-  intros Hn. unfold capinv in Hi. rewrite Hc in Hi. exact (Hi Hn).
+  intros c os s. destruct (reach_capinv c os) as [Hc [H1 H2]]. fold s in Hc, H1, H2. rewrite Hc in H1, H2.
+  exact (conj Hc (conj H1 H2)).
 Qed.
 Print Assumptions C10_capacity_bound.
 
 (* Non-vacuity: a TTL history where value 0 is expired while held, key 0 re-added as value 1, the old holder
    releases with evict: value 0 finalised exactly once, value 1 still cached and held, not finalised. *)
 Example C10_nonvacuous :
-  let s := exec (init 0) [Add 0; Expire 0; Add 0; Release 0 true] in
+  let s := exec (initZ 0) [Add 0; Expire 0; Add 0; Release 0 true] in
   callbacks s 0 = 1 /\ callbacks s 1 = 0 /\ live s 1 = 1 /\ lru_find (lru s) 0 = Some 1
   /\ (exists e, nth_error (ents s) 0 = Some e /\ e_fin e = true).
 Proof. vm_compute. repeat split. eexists. split; reflexivity. Qed.
